@@ -39,6 +39,7 @@ type c10Layout struct {
 	Name  string
 	Files map[string]string // relative path -> content
 	Lint  []string          // workflow files that are candidates for linting (relative paths)
+	Cwd   string            // working directory of the linter, relative to the scratch root ("" = the root)
 }
 
 func c10Reusable(tag string) string {
@@ -134,7 +135,7 @@ func c10AddRepo(l *c10Layout, r *Rand, dir, tag string, nwf int, withConfig bool
 	}
 }
 
-var c10LayoutNames = []string{"one-repo", "two-repos", "prefix-siblings", "nested-repos", "repo-and-loose-files", "one-repo-many-files"}
+var c10LayoutNames = []string{"one-repo", "two-repos", "prefix-siblings", "nested-repos", "repo-and-loose-files", "one-repo-many-files", "monorepo-mirror-cwd-inside"}
 
 func c10GenLayout(r *Rand, idx int) *c10Layout {
 	l := &c10Layout{Files: map[string]string{}}
@@ -161,6 +162,17 @@ func c10GenLayout(r *Rand, idx int) *c10Layout {
 		}
 	case "one-repo-many-files":
 		c10AddRepo(l, r, "many", "mn", r.Range(6, 12), true)
+	case "monorepo-mirror-cwd-inside":
+		// the linter runs from a directory strictly inside the repository, and that directory mirrors
+		// the repository's workflow layout with a DIFFERENT reusable workflow interface at the same
+		// relative path: a path resolved against the wrong base directory finds the wrong callee
+		c10AddRepo(l, r, "mono", "mo", r.Range(1, 3), true)
+		l.Files[filepath.Join("mono", "pkg", ".github", "workflows", "reusable.yml")] = c10Reusable("other")
+		l.Files[filepath.Join("mono", "pkg", "act", "action.yml")] = c10Action("other")
+		cm := filepath.Join("mono", ".github", "workflows", "callmirror.yml")
+		l.Files[cm] = "on: push\njobs:\n  call:\n    uses: ./pkg/.github/workflows/reusable.yml\n    with:\n      rin_other: x\n    secrets:\n      sec_other: ${{ secrets.S }}\n  after:\n    needs: [call]\n    runs-on: ubuntu-latest\n    steps:\n      - run: echo ${{ needs.call.outputs.rout_other }}\n      - uses: ./pkg/act\n        with:\n          in_other: x\n"
+		l.Lint = append(l.Lint, cm)
+		l.Cwd = r.Pick([]string{"mono/pkg", "mono/pkg", "mono/.github", "mono"})
 	}
 	sort.Strings(l.Lint)
 	return l
@@ -207,11 +219,13 @@ func c10IsolationCase(out *workerOut, r *Rand, idx int, root, tier string) {
 		return d
 	}
 	fp0 := actionlint.VerifTableFingerprints()
+	cwd := filepath.Join(root, lay.Cwd)
+	os.MkdirAll(cwd, 0o755)
 
 	// reference: every file alone, fresh linter
 	alone := map[string][]string{}
 	for _, f := range lay.Lint {
-		l, err := actionlint.NewLinter(io.Discard, &actionlint.LinterOptions{WorkingDir: root})
+		l, err := actionlint.NewLinter(io.Discard, &actionlint.LinterOptions{WorkingDir: cwd})
 		if err != nil {
 			out.viol(idx, "C10:harness", "NewLinter failed: "+err.Error(), nil)
 			return
@@ -286,7 +300,7 @@ func c10IsolationCase(out *workerOut, r *Rand, idx int, root, tier string) {
 		for _, f := range files {
 			abs = append(abs, filepath.Join(root, f))
 		}
-		l, err := actionlint.NewLinter(io.Discard, &actionlint.LinterOptions{WorkingDir: root})
+		l, err := actionlint.NewLinter(io.Discard, &actionlint.LinterOptions{WorkingDir: cwd})
 		if err != nil {
 			runtime.GOMAXPROCS(prev)
 			return
@@ -303,7 +317,14 @@ func c10IsolationCase(out *workerOut, r *Rand, idx int, root, tier string) {
 		}
 		got := map[string][]string{}
 		for _, e := range errs {
-			got[e.Filepath] = append(got[e.Filepath], c10Key(e))
+			fp := e.Filepath // printed relative to the working directory: normalise to the scratch root
+			if !filepath.IsAbs(fp) {
+				fp = filepath.Join(cwd, fp)
+			}
+			if rel, rerr := filepath.Rel(root, fp); rerr == nil {
+				fp = rel
+			}
+			got[fp] = append(got[fp], c10Key(e))
 		}
 		// interleaving bookkeeping
 		var order []string
